@@ -16,7 +16,8 @@ Template syntax (everything else is copied through verbatim):
   //@CANARY-BEGIN / //@CANARY-END   text only present in the canary run, which must produce an error inside it
 
 Automatic, always recorded: drop-attr (attributes, doc comments before the fn), drop-log (statements that are exactly one
-tracing macro call), underscore-closure (`|_|` -> `|_e|`).
+tracing macro call), underscore-closure (`|_|` -> `|_e|`), debug-assert-eq, ref-pattern (`if let Some(&x) = e {` ->
+`if let Some(x__ref) = e { let x = *x__ref;`).
 Anything else that does not fit => ExtractError => the obligation is UNDECIDED (exit 2), never a violation.
 """
 import json
@@ -360,6 +361,16 @@ def extract_fn(repo, d, template_text):
     if n_eq:
         body = re.sub(r"\bdebug_assert_eq!\(((?:[^()]|\([^()]*\))*)\);", _dbg_eq, body)
         tr.append({"kind": "debug-assert-eq", "count": n_eq})
+    # `if let Some(&x) = e {`  ->  `if let Some(x__ref) = e { let x = *x__ref;`  (the reference pattern copies the referent
+    # out, which is what the added `let` does; Verus has no reference patterns)
+    n_ref = 0
+    def _ref_pat(m):
+        nonlocal n_ref
+        n_ref += 1
+        return f"if let Some({m.group(1)}__ref) = {m.group(2)} {{ let {m.group(1)} = *{m.group(1)}__ref;"
+    body = re.sub(r"\bif\s+let\s+Some\(\s*&\s*([a-z_][a-z0-9_]*)\s*\)\s*=\s*([^{};]+?)\s*\{", _ref_pat, body)
+    if n_ref:
+        tr.append({"kind": "ref-pattern", "count": n_ref})
     for c in sorted(d.get("closures", []), key=lambda x: -x["n"]):
         whole = _apply_closure(sig + body, c["n"], c["text"], tr)
         sig, body = _resplit(whole)
